@@ -697,9 +697,24 @@ class Emitter:
         # swallowed there (that is what a logging-only handler does).  Any handler with an effect on verified state aborts the unit.
         ks = self.kids(n)
         body, handlers = ks[0], ks[1:]
+        handler_ret = None
         for hd in handlers:
             hb = [c for c in self.kids(hd) if c.get('kind') == 'CompoundStmt']
-            for st in (self.kids(hb[0]) if hb else []):
+            sts = self.kids(hb[0]) if hb else []
+            if sts and sts[-1].get('kind') == 'ReturnStmt':
+                # handlers that log and then return a literal: every handler must return the same literal; the landing pad returns it
+                rk = self.kids(sts[-1])
+                lit = self.unwrap(rk[0]) if rk else None
+                if lit is None or lit.get('kind') not in ('CXXBoolLiteralExpr', 'IntegerLiteral'):
+                    raise Unsupported('catch handler returning a non-literal')
+                val = self.expr(lit)
+                if handler_ret not in (None, val):
+                    raise Unsupported('catch handlers returning different values')
+                handler_ret = val
+                sts = sts[:-1]
+            elif handler_ret is not None:
+                raise Unsupported('catch handlers of one try block: some return, some fall through')
+            for st in sts:
                 if not (self.is_log_stmt(st) or (st.get('kind') == 'IfStmt' and self.is_log_stmt(([{}] + [c for c in st.get('inner', []) if isinstance(c, dict)])[-1]))):
                     raise Unsupported('catch handler with a non-logging statement')
                 self.check_droppable(st)
@@ -713,6 +728,9 @@ class Emitter:
         finally:
             self.exc_stack.pop()
         self.rules['try_with_logging_handlers'] += 1
+        if handler_ret is not None:
+            after = '__after_try_%d' % self.try_no
+            return inner + ['goto %s;' % after, '%s: __exc = 0; return %s; /* handlers of this try block log and return this value */' % (lab, handler_ret), '%s: ;' % after]
         return inner + ['%s: __exc = 0; /* handlers of this try block only log: the exception is swallowed */' % lab]
 
     def rangefor(self, n):
@@ -1331,6 +1349,15 @@ class Emitter:
         t = self.tstr(n['type']).strip()
         assert t.endswith('*')
         et = t[:-1].strip()
+        for rx, model in self.spec.get('new_models', []):
+            if re.fullmatch(rx, self.strip_cv(et)):
+                # `new C(args)` of an opaque class: the spec's model allocates and initialises the abstract object
+                self.rules['new_of_modelled_class'] += 1
+                ce = [c for c in self.kids(n) if c.get('kind') in ('CXXConstructExpr', 'CXXTemporaryObjectExpr')]
+                cargs = self.kids(ce[0]) if ce else []
+                ctype = ce[0].get('ctorType', {}).get('qualType', 'void ()') if ce else 'void ()'
+                argl = self.args_for(ctype, cargs, model) if cargs else []
+                return '%s(%s)' % (model, ', '.join(argl))
         ed = self._decl(et, '')
         if ed.startswith('struct ') and not ed.rstrip().endswith('*') and not any(re.fullmatch(rx, self.strip_cv(et)) for rx in self.spec.get('pod', [])):
             raise Unsupported('new of non-POD class type ' + et)
